@@ -273,3 +273,51 @@ func Harness_C14_handle_matches_byte_array() {
 	}
 	vm.Assert("C14.locks_free", v.Env.LocksFree())
 }
+
+
+// Harness_C14_read_seek_read: the sequence a media player or an archive reader performs on a read-only
+// handle: read some bytes, seek (any whence, forwards or backwards), read again.
+func Harness_C14_read_seek_read() {
+	v := verifNewFS(config.PipeConfig{}, false, true)
+	v.rootOnly()
+	const l = 4
+	content := make([]byte, l)
+	for i := range content {
+		content[i] = byte('p' + i)
+	}
+	v.Env.AddEntry("/f", tar.TypeReg, l, false, "")
+	copy(v.Env.Tape.LastMember().Data, content)
+	h, ref, ok := c14Open(v, content, 0)
+	vm.Assert("C14.rsr_open_ok", ok)
+	if !ok {
+		return
+	}
+	step := func(tag string) {
+		k := vm.Concretize(vm.Int(tag+".k", 1, 3))
+		buf := make([]byte, k)
+		start := ref.pos
+		n, err := h.Read(buf)
+		wn, weof, _ := ref.doRead(k)
+		vm.Assert("C14.rsr_read_count", n == wn || (weof && n <= 0))
+		vm.Assert("C14.rsr_read_error", err == nil || err == io.EOF)
+		if n == wn {
+			for i := 0; i < wn; i++ {
+				vm.Assert("C14.rsr_read_bytes", buf[i] == ref.data[start+int64(i)])
+			}
+		}
+	}
+	step("r1")
+	off := int64(vm.Int("off", -3, 4))
+	whence := vm.Int("whence", 0, 2)
+	vm.Known("C14-seek-beyond-eof-loses-cursor", ref.pos > int64(len(ref.data)))
+	got, err := h.Seek(off, whence)
+	want, sok := ref.doSeek(off, whence)
+	vm.Assert("C14.rsr_seek_success_like_reference", (err == nil) == sok)
+	if !sok || err != nil {
+		return
+	}
+	vm.Assert("C14.rsr_seek_offset", got == want)
+	vm.Known("C14-seek-beyond-eof-loses-cursor", ref.pos > int64(len(ref.data)))
+	step("r2")
+	h.Close()
+}
